@@ -2,7 +2,7 @@
    Partial: that dropping a Context drops the senders it stores (message queue, awaiting_ack,
    subscriptions) and that a dropped sender resolves its receiver is futures / Drop behaviour,
    assumed by the model (drop_ctx, cancel, close_stream_sender) and exercised by the harness. *)
-From Poster Require Import Model.Client Proofs.ClientP.
+From Poster Require Import Model.Sim Proofs.ClientP Proofs.SimInvP Proofs.OwnP.
 
 (* an operation waiting on a oneshot whose sender was dropped completes ContextExited at its
    next poll *)
@@ -30,3 +30,36 @@ Theorem C14_streams : forall (s : sys) (j : N) (st : strm),
 Proof. exact stream_after_drop. Qed.
 Print Assumptions C14_streams.
 
+
+(* ---- every history ------------------------------------------------------------------------------------------
+   `final_state sys_init evs` ranges over every state reachable by script events: operations of every
+   kind started, polled, dropped in any order from any handle clone, any bytes delivered, transport faults,
+   hold/release batching, reconnects, the Context dropped at any point (Model/Sim.v step).
+
+   Ownership invariant: whenever an operation future waits on an empty oneshot, the Context is alive and
+   holds that oneshot's sender - in the handle message queue or in awaiting_ack. *)
+Theorem C14_ownership : forall evs : list event, Own (final_state sys_init evs).
+Proof. exact ownership_reachable. Qed.
+Print Assumptions C14_ownership.
+
+(* drop(Context) drops every sender it holds: afterwards no operation waits on an empty oneshot *)
+Theorem C14_drop_resolves : forall s : sys, Own s -> forall i ph, ~ unresolved (drop_ctx s) i ph.
+Proof. exact drop_ctx_resolves. Qed.
+Print Assumptions C14_drop_resolves.
+
+(* hence: in every history, once the Context is gone, no poll of any operation future - pending
+   before the drop or started after it - ever returns Pending again *)
+Theorem C14_no_hang : forall (evs : list event) (i : N), let s := final_state sys_init evs in
+  ctx_alive s = false -> snd (poll_op s i) <> [OPend i].
+Proof. exact no_hang_after_drop. Qed.
+Print Assumptions C14_no_hang.
+
+Example C14_nonvacuous :
+  let evs := [EConnect (Build_connect_opts [99] 0 None None None None None None None None [] 0 false false
+                          None None None None None None [] None None None None);
+              EDeliver [32; 3; 0; 0; 0]; ERun;
+              EStart 0 0 (OPub (Build_publish_opts 2 false (Some [97]) None None None None None None None []));
+              EPoll 0; EStart 1 0 OPing; EHold; EPoll 1; EDropCtx] in
+  let s := final_state sys_init evs in
+  ctx_alive s = false /\ snd (poll_op s 0) = [ODone 0 RErrExited] /\ snd (poll_op s 1) = [ODone 1 RErrExited].
+Proof. vm_compute. auto. Qed.
